@@ -4,6 +4,7 @@ import DaskModel.Lemmas.SliceInt
 import DaskModel.Lemmas.SliceSize2
 import DaskModel.Lemmas.SliceNDLemmas
 import DaskModel.Lemmas.NormIndexLemmas
+import DaskModel.Lemmas.VIndexLemmas
 /-!
 # C20 — array indexing equals NumPy indexing (theorems)
 
@@ -276,6 +277,63 @@ open Dask.SliceND in
 example : axisPairs [2, 1, 3] (.sl ⟨some 4, none, some (-2)⟩) =
     [(some 2, (0, .sl (PSlice.ofInts (-2) (-3) (-2)))), (some 1, (1, .sl (PSlice.ofInts (-1) (-2) (-2)))),
      (some 0, (2, .sl (PSlice.ofInts (-2) (-4) (-2))))] := by decide
+
+/-! ## `vindex`: point-wise selection -/
+
+open Dask.VIndex in
+/-- **`_vindex_array` delivers every point exactly once, from the right place.** `chunks` = the chunks of the indexed
+    axes, `pts` = the (broadcast, flattened) points, all in bounds, `M` = the number of points per output block.
+    The points are placed (`placeAll`) and grouped by (output block, input blocks) into the slice/merge tasks (`groups`).
+    Then: (1) the tasks' points, all together, are a permutation of the placed points — none lost, none duplicated;
+    (2) all points of a task share its output block and its input blocks; (3) the `i`-th point goes to output block
+    `i / M` at index `i % M` (`outblock * M + outidx = i` for `M > 0`), and (4) the in-block indices it is read at address,
+    in its input blocks, exactly its coordinates `pts[i]` (`sum(chunks[:block]) + inblock` on every axis). Hence cell `i`
+    of the merged output holds `x[pts[i]]` — NumPy's point-wise selection; (5) the point-axis chunks sum to the number
+    of points. -/
+theorem vindex_den (M : Nat) (chunks : List (List Nat)) (pts : List (List Int))
+    (hin : ∀ c ∈ pts, chunks.length = c.length ∧ ∀ p ∈ chunks.zip c, 0 ≤ p.2 ∧ p.2 < ((p.1.sum : Nat) : Int)) :
+    ∃ placed, placeAll M chunks 0 pts = some placed ∧ placed.length = pts.length ∧
+      ((groups placed).flatMap (·.2)).Perm placed ∧
+      (∀ g ∈ groups placed, ∀ q ∈ g.2, q.outblock :: q.blocks = g.1) ∧
+      (∀ (i : Nat) (q : Placed), placed[i]? = some q →
+        q.pos = i ∧ q.outblock = i / M ∧ q.outidx = i % M ∧ (0 < M → q.outblock * M + q.outidx = i ∧ q.outidx < M) ∧
+        pts[i]? = some (globalOf chunks q.blocks q.inblock)) ∧
+      (pointChunks M pts.length).sum = pts.length := by
+  -- placing succeeds because every point can be located
+  have hplace : ∀ (pts : List (List Int)) (p0 : Nat),
+      (∀ c ∈ pts, chunks.length = c.length ∧ ∀ p ∈ chunks.zip c, 0 ≤ p.2 ∧ p.2 < ((p.1.sum : Nat) : Int)) →
+      ∃ placed, placeAll M chunks p0 pts = some placed := by
+    intro pts
+    induction pts with
+    | nil => intro p0 _; exact ⟨[], rfl⟩
+    | cons c rest ih =>
+      intro p0 h
+      obtain ⟨bs, os, hl, _⟩ := locate_spec chunks c (h c (by simp)).1 (h c (by simp)).2
+      obtain ⟨r, hr⟩ := ih (p0 + 1) (fun c' hc' => h c' (by simp [hc']))
+      exact ⟨⟨p0, p0 / M, p0 % M, bs, os⟩ :: r, by simp [placeAll, hl, hr]⟩
+  obtain ⟨placed, hp⟩ := hplace pts 0 hin
+  obtain ⟨hlen, hall⟩ := placeAll_spec M chunks pts 0 placed hp
+  refine ⟨placed, hp, hlen, groups_perm placed, groups_keyed placed, ?_, pointChunks_sum M pts.length⟩
+  intro i q hq
+  obtain ⟨h1, h2, h3, c, hc, hloc⟩ := hall i q hq
+  simp only [Nat.zero_add] at h1 h2 h3
+  refine ⟨h1, h2, h3, ?_, ?_⟩
+  · intro hM
+    rw [h2, h3]
+    exact ⟨by rw [Nat.mul_comm]; exact Nat.div_add_mod i M, Nat.mod_lt i hM⟩
+  · have hcin := hin c (List.mem_of_getElem? hc)
+    obtain ⟨bs, os, hl, hg⟩ := locate_spec chunks c hcin.1 hcin.2
+    rw [hl] at hloc
+    simp only [Option.some.injEq, Prod.mk.injEq] at hloc
+    rw [hc, ← hloc.1, ← hloc.2, hg]
+
+open Dask.VIndex in
+/-- non-vacuity: chunks ((2,3),(2,2)), four points, two per output block -/
+example : (placeAll 2 [[2, 3], [2, 2]] 0 [[0, 0], [4, 3], [1, 2], [4, 1]]).map groups =
+    some [([0, 0, 0], [⟨0, 0, 0, [0, 0], [0, 0]⟩]), ([0, 1, 1], [⟨1, 0, 1, [1, 1], [2, 1]⟩]),
+          ([1, 0, 1], [⟨2, 1, 0, [0, 1], [1, 0]⟩]), ([1, 1, 0], [⟨3, 1, 1, [1, 0], [2, 1]⟩])] := by decide
+open Dask.VIndex in
+example : maxPoints [[2, 3], [2, 2]] = 6 ∧ pointChunks 6 4 = [4] ∧ pointChunks 2 5 = [2, 2, 1] := by decide
 
 /-! ## `normalize_index`: Ellipsis, padding, np.newaxis -/
 
